@@ -659,6 +659,13 @@ def lazy_case(run, index: int) -> None:
     else:
         db = fresh_db()
         get = db.get_ent
+        if index % 5 == 4:
+            # history: the whole database is loaded first (and what get_fgd() hands out is edited), THEN single entities are asked for
+            whole = db.get_fgd()
+            for e_ in list(whole)[: 40]:
+                vandalise(e_)
+            whole.entities.clear()
+            run.count('lazy_queries_after_a_full_load')
     memo: Dict[int, Any] = {}
     bad = False
     for qi, name in enumerate(order):
@@ -866,7 +873,7 @@ def main(run, shard=(0, 1)) -> None:
         if cnt:
             run.count('reach:' + label_, cnt)
     run.require(*['reach:' + label_ for label_ in probe.counts])
-    run.require('spawnflag_names_with_leading_blanks', 'exports', 'parses', 'file_form_exports', 'fgd_level_sections_compared', 'visgroup_trees_checked_against_export', 'engine_db_shape_checks', 'returned_definitions_edited', 'serialise_twice', 'tagged_member_refused', 'entities_compared', 'second_exports', 'serialise_calls', 'unserialise_calls',
+    run.require('spawnflag_names_with_leading_blanks', 'exports', 'parses', 'file_form_exports', 'fgd_level_sections_compared', 'visgroup_trees_checked_against_export', 'engine_db_shape_checks', 'returned_definitions_edited', 'lazy_queries_after_a_full_load', 'serialise_twice', 'tagged_member_refused', 'entities_compared', 'second_exports', 'serialise_calls', 'unserialise_calls',
                 'lazy_queries', 'dbase_roundtrips', 'binary_dbase_roundtrips', 'long_strings', 'empty_display_names',
                 'tagged_duplicate_keys', 'aliases', 'texts_with_plus_split', 'binary_entities_compared')
 
